@@ -150,6 +150,21 @@ def r13_2(ctx):
                 continue
             okp = False
     frag = [t for bi, t, p in core.calls_to(sd, suffix("cmp::min")) if any(sd.term_operand(a)[0] == "var" and sd.term_operand(a)[1] == "max_payload_size" for a in t["a"])]
+    helper = S + "enqueue_message"
+    if not frag and ctx.facts.has_body(helper):
+        # the fragment loop was moved into a helper: its size argument is the bounded variable, or a bounded expression
+        hb = ctx.body(helper)
+        r.scope.append(helper)
+        frag = [t for bi, t, p in core.calls_to(hb, suffix("cmp::min")) if any(hb.term_operand(a) == ("arg", "max_payload_size") for a in t["a"])]
+        names = [l.get("n") for l in hb.locals[1:1 + hb.rec.get("argc", 0)]] if hb.rec.get("argc") else None
+        for bi, t, p in sd.calls():
+            if not p or not p.endswith("::enqueue_message"):
+                continue
+            args = [sd.term_operand(a) for a in t["a"]]
+            sized = [a for a in args if (a[0] == "var" and a[1] == "max_payload_size") or
+                     (a[0] == "call" and a[1].endswith("::min") and any(x[0] == "item" and x[1].endswith("DEFAULT_MAX_PAYLOAD_SIZE") for x in a[2]))]
+            if not sized:
+                okp = False
     if mp and okp and frag:
         r.ok({"fragment size": "min(remaining, max_payload_size), max_payload_size <= DEFAULT_MAX_PAYLOAD_SIZE"})
     else:
